@@ -215,6 +215,12 @@ pub(super) mod udp {
             } else {
                 match self.codec.decode(src)? {
                     Some((content, addr, session)) => {
+                        if self.replay_protected && session.client_session_id != self.session.client_session_id {
+                            // addressed to another client session (every session of a configuration shares the key): not ours,
+                            // and it must not use up a packet id of this session
+                            warn!("[udp] datagram for another client session dropped; session={}", session);
+                            return Ok(None);
+                        }
                         if self.replay_protected && !self.filter_of(session.server_session_id).validate_packet_id(session.packet_id, u64::MAX) {
                             // a duplicate or stale packet is dropped (it has been consumed); the session goes on
                             warn!("[udp] packet_id out of window; session={}", session);
